@@ -5,6 +5,7 @@ import (
 	"fmt"
 
 	"github.com/refraction-networking/uquic/internal/protocol"
+	"github.com/refraction-networking/uquic/quicvarint"
 )
 
 // InitialPacketSpec describes everything about the QUIC Initial flight except the
@@ -190,6 +191,28 @@ func (ps *InitialPacketSpec) validate(udpDatagramMinSize, maxPacketSize int) err
 	if udpDatagramMinSize < 0 || (udpDatagramMinSize > 0 && udpDatagramMinSize < protocol.MinInitialPacketSize) || udpDatagramMinSize > protocol.MaxPacketBufferSize {
 		return fmt.Errorf("uquic: invalid QUICSpec: UDPDatagramMinSize %d is not in [%d, %d] (0 means %d)", udpDatagramMinSize, protocol.MinInitialPacketSize, protocol.MaxPacketBufferSize, DefaultUDPDatagramMinSize)
 	}
+	// The flight has to be realisable: with the longest header this spec can produce, a
+	// packet of the maximum size must hold at least one byte of CRYPTO data (else nothing is
+	// ever sent and the dial just times out), and a CryptoLength that pins the split must fit
+	// its packet (else the CRYPTO stream is silently cut somewhere else).
+	maxHdr := ps.maxInitialHeaderLen()
+	const aeadTag, minCryptoFrame = 16, 1 + 1 + 1 + 1 // type, offset, length, one byte
+	if maxHdr+aeadTag+minCryptoFrame > maxPacketSize {
+		return fmt.Errorf("uquic: invalid QUICSpec: an Initial header of up to %d bytes (ClientTokenLength/ClientTokenPrefix: %d-byte token) leaves no room for CRYPTO data in a %d-byte packet", maxHdr, ps.tokenLength(), maxPacketSize)
+	}
+	for i, plan := range ps.InitialPackets {
+		limit := maxPacketSize
+		if plan.PacketSize > 0 && plan.PacketSize < limit {
+			limit = plan.PacketSize
+		}
+		if maxHdr+aeadTag+minCryptoFrame > limit {
+			return fmt.Errorf("uquic: invalid QUICSpec: an Initial header of up to %d bytes leaves no room for CRYPTO data in InitialPackets[%d].PacketSize = %d bytes", maxHdr, i, limit)
+		}
+		// type + offset (up to 4 bytes) + length + data, as PackCoalescedPacket budgets it
+		if cl := plan.CryptoLength; cl > 0 && maxHdr+1+4+quicvarint.Len(uint64(cl))+cl >= limit-aeadTag {
+			return fmt.Errorf("uquic: invalid QUICSpec: InitialPackets[%d].CryptoLength %d does not fit a %d-byte packet with a header of up to %d bytes, the CRYPTO stream would be cut elsewhere", i, cl, limit, maxHdr)
+		}
+	}
 	for i, plan := range ps.InitialPackets {
 		if plan.CryptoLength < 0 {
 			return fmt.Errorf("uquic: invalid QUICSpec: InitialPackets[%d].CryptoLength %d is negative", i, plan.CryptoLength)
@@ -199,6 +222,32 @@ func (ps *InitialPacketSpec) validate(udpDatagramMinSize, maxPacketSize int) err
 		}
 	}
 	return nil
+}
+
+// maxInitialHeaderLen is the longest long header an Initial packet of this spec can have:
+// a library-chosen destination connection ID may be 20 bytes, the longest configured packet
+// number length (4 when the default algorithm chooses), and the synthesized token (a token
+// from an explicit TokenStore is not known before the dial). [UQUIC]
+func (ps *InitialPacketSpec) maxInitialHeaderLen() int {
+	dcid := ps.DestConnIDLength
+	if dcid == 0 {
+		dcid = protocol.MaxConnIDLen
+	}
+	pnLen := int(ps.InitPacketNumberLength)
+	if pnLen == 0 {
+		pnLen = int(protocol.PacketNumberLen4)
+	}
+	if len(ps.InitPacketNumberLengths) > 0 {
+		pnLen = 1
+		for _, l := range ps.InitPacketNumberLengths {
+			pnLen = max(pnLen, int(l))
+		}
+	}
+	tokenLen := 0
+	if ps.TokenStore == nil {
+		tokenLen = ps.tokenLength()
+	}
+	return 1 + 4 + 1 + dcid + 1 + ps.SrcConnIDLength + pnLen + 2 + quicvarint.Len(uint64(tokenLen)) + tokenLen
 }
 
 // UpdateConfig installs the spec's token source into conf, resolved by getTokenStore:
